@@ -234,7 +234,7 @@ func runC10(w *world.World, c caseC10, rec *kit.Recorder) error {
 	return nil
 }
 
-var signerClasses = []string{"user", "module-orbiter", "module-gov", "empty", "whitespace", "garbage", "wrong-prefix", "truncated-authority", "authority-with-space"}
+var signerClasses = []string{"user", "module-orbiter", "module-gov", "empty", "whitespace", "garbage", "wrong-prefix", "truncated-authority", "authority-with-space", "authority-look-alike"}
 
 func genSigner(t *rapid.T) string {
 	switch pick(t, "signer/class", signerClasses) {
@@ -254,6 +254,19 @@ func genSigner(t *rapid.T) string {
 		return kit.OtherPrefix(world.Authority, "cosmos")
 	case "truncated-authority":
 		return world.Authority[:len(world.Authority)-1]
+	case "authority-look-alike":
+		// strings that are NOT a bech32 encoding of the authority (mixed case is malformed
+		// bech32, fold partners are other characters) but resemble it
+		a := world.Authority
+		i := 6 + rapid.IntRange(0, len(a)-7).Draw(t, "signer/la/pos")
+		return pick(t, "signer/la", []string{
+			strings.ToUpper(a[:1]) + a[1:],
+			strings.ToUpper(a[:5]) + a[5:],
+			a[:i] + strings.ToUpper(a[i:i+1]) + a[i+1:],
+			strings.Replace(a, "k", "\u212a", 1),
+			strings.Replace(a, "s", "\u017f", 1),
+			a[:i] + a[i+1:] + a[i:i+1],
+		})
 	default:
 		return pick(t, "signer/sp", []string{world.Authority + " ", " " + world.Authority, world.Authority + "\x00"})
 	}
@@ -273,6 +286,8 @@ func signerClass(s string) string {
 		return "wrong-prefix"
 	case strings.Contains(s, world.Authority):
 		return "authority-with-space"
+	case s != world.Authority && len(s) >= len(world.Authority)-1 && (strings.EqualFold(s, world.Authority) || similar(s, world.Authority)):
+		return "authority-look-alike"
 	case strings.HasPrefix(world.Authority, s):
 		return "truncated-authority"
 	default:
@@ -388,4 +403,20 @@ func init() {
 		}
 		return runC10(prodW, c, nil)
 	})
+}
+
+// similar reports whether two strings of (nearly) the same length differ in at most two bytes
+// or are fold-equal after replacing the known fold partners.
+func similar(a, b string) bool {
+	a = strings.NewReplacer("\u212a", "k", "\u017f", "s").Replace(strings.ToLower(a))
+	if len(a) != len(b) {
+		return false
+	}
+	diff := 0
+	for i := range a {
+		if a[i] != b[i] {
+			diff++
+		}
+	}
+	return diff <= 2
 }
